@@ -235,47 +235,84 @@ Proof.
   unfold R. rewrite G1, G2, G3. tauto.
 Qed.
 
-(* an acknowledged write under any set of armed write faults is the fault-free write: every byte is in place *)
-Lemma write_at_f_ack : forall tl repl fl st f off b n st', 0 < tl -> R tl st f -> (0 <= off)%Z ->
-  write_at_f tl repl fl st off b = ((n, E_OK), st') ->
+Definition nok (x : option N) : Prop := forall e, x = Some e -> e <> E_OK.
+
+Lemma nok_cerr : forall cf c w, nok (cerr cf c w).
+Proof.
+  intros cf c w e H. unfold cerr in H. destruct (find _ cf) as [x|]; [|discriminate].
+  injection H as <-. destruct (snd x / 10 =? 0); discriminate.
+Qed.
+
+Lemma nok_ts : forall fl a repl f c, nok (ts_fail fl a repl f c).
+Proof.
+  intros fl a repl f c e H. unfold ts_fail in H.
+  destruct (N.eqb_spec (scan_slots (slot_results fl a repl f c)) E_OK); [discriminate|]. injection H as <-. auto.
+Qed.
+
+Lemma nok_orelse : forall a b, nok a -> nok b -> nok (orelse a b).
+Proof. intros a b Ha Hb e H. destruct a as [x|]; cbn in H; [apply Ha; auto | apply Hb; auto]. Qed.
+
+Lemma nok_none : nok None.
+Proof. intros e H. discriminate. Qed.
+
+(* an acknowledged write under any set of armed tractserver write faults and curator faults is the fault-free
+   write: every byte is in place and committed *)
+Lemma write_at_f_ack : forall tl repl fl cf st f off b n st', 0 < tl -> R tl st f -> (0 <= off)%Z ->
+  write_at_f tl repl fl cf st off b = ((n, E_OK), st') ->
   n = rlen b /\ R tl st' (sf_write f (Z.to_N off) b).
 Proof.
-  intros tl repl fl st f off b n st' Htl HR Hoff H. unfold write_at_f in H.
+  intros tl repl fl cf st f off b n st' Htl HR Hoff H. unfold write_at_f in H.
   destruct (Z.ltb_spec off 0) as [Ho|Ho]; [lia|].
   destruct (N.eqb_spec (rlen b) 0) as [Hb|Hb].
   { injection H as <- <-. unfold sf_write. rewrite Hb. cbn. auto. }
   set (o := Z.to_N off) in *. set (start := o / tl) in *. set (e := (o + rlen b + tl - 1) / tl) in *.
-  assert (Hcreate : forall s, R tl s f ->
-    (if (ntr st <? e) && negb (scan_slots (slot_results fl 0 repl (ntr st) (e - ntr st)) =? E_OK)
-     then if start <? ntr st
-          then let '(wp, _, s') := write_at tl s off (rtake (ntr st * tl - o) b) in (wp, E_FAULT, s')
-          else if negb (scan_slots (slot_results fl 0 repl (ntr st) (start - ntr st)) =? E_OK)
-               then (0, E_FAULT, s)
-               else (0, E_FAULT, set_tracts s (create_empty (N.to_nat (start - ntr st)) (ntr st) (tracts s)) (N.max (ntr st) start))
-     else write_at tl s off b) = (n, E_OK, st') ->
-    n = rlen b /\ R tl st' (sf_write f o b)).
-  { intros s HRs Hc.
-    destruct ((ntr st <? e) && negb (scan_slots (slot_results fl 0 repl (ntr st) (e - ntr st)) =? E_OK)).
-    - destruct (start <? ntr st).
-      + destruct (write_at tl s off (rtake (ntr st * tl - o) b)) as [[wp x] s']. discriminate Hc.
-      + destruct (negb (scan_slots (slot_results fl 0 repl (ntr st) (start - ntr st)) =? E_OK)); discriminate Hc.
-    - destruct (write_at_R tl s f off b n E_OK st' Htl HRs Hoff Hc) as (H1 & _ & _ & H4). auto. }
-  destruct (start <? ntr st) eqn:Hs.
-  - destruct (negb (scan_slots (slot_results fl 0 repl start (N.min e (ntr st) - start)) =? E_OK)).
-    + destruct (get_tracts st start (N.min e (ntr st))) as [r1 stg] eqn:Hg.
-      assert (Hlt : start < N.min e (ntr st)).
-      { apply N.ltb_lt in Hs. destruct (tract_of tl o Htl) as (S1 & S2 & _). fold start in S1, S2.
-        destruct (ceil_tract tl (o + rlen b) Htl ltac:(lia)) as (E1 & E2 & E3).
-        replace ((o + rlen b + tl - 1) / tl) with e in * by (unfold e; f_equal; lia).
-        assert (start < e); [|lia].
-        destruct (N.lt_ge_cases start e) as [|Hge]; auto.
-        assert (e * tl <= start * tl) by (apply N.mul_le_mono_r; lia). lia. }
-      pose proof (get_tracts_R tl st f _ _ r1 stg HR Hlt Hg) as HRg.
-      destruct (rpcs stg =? rpcs st).
-      * destruct (negb (scan_slots (slot_results fl 1 repl start (N.min e (ntr st) - start)) =? E_OK)).
-        -- destruct (get_tracts (drop_cache stg) start (N.min e (ntr st))) as [r2 st2]. discriminate H.
-        -- apply (Hcreate (drop_cache stg)); auto. apply R_drop_cache; auto.
-      * discriminate H.
-    + apply (Hcreate st); auto.
-  - apply (Hcreate st); auto.
+  assert (Hw : forall s, R tl s f -> write_at tl s off b = (n, E_OK, st') -> n = rlen b /\ R tl st' (sf_write f o b)).
+  { intros s HRs Hc. destruct (write_at_R tl s f off b n E_OK st' Htl HRs Hoff Hc) as (H1 & _ & _ & H4). auto. }
+  (* a step that failed cannot be followed by an acknowledgement *)
+  assert (Hno : forall (x : option N) k s, nok x -> forall er, x = Some er -> (k, er, s) = (n, E_OK, st') -> False).
+  { intros x k s Hx er Hx' Heq. injection Heq as _ He _. exact (Hx er Hx' He). }
+  set (create_part := write_create_part tl repl fl cf (ntr st) start e o off b) in H.
+  assert (Hcreate : forall s, R tl s f -> create_part s = (n, E_OK, st') -> n = rlen b /\ R tl st' (sf_write f o b)).
+  { intros s HRs Hc. unfold create_part, write_create_part in Hc. clear H create_part.
+    destruct (ntr st <? e); [|apply (Hw s); auto].
+    destruct (ntr st <? start).
+    - destruct (orelse (cerr cf C_EXTEND 0) (orelse (ts_fail fl 0 repl (ntr st) (start - ntr st)) (cerr cf C_ACK 0))) as [er|] eqn:E1.
+      + exfalso. eapply (Hno _ _ _ _ er E1 Hc). Unshelve.
+        apply nok_orelse; [apply nok_cerr | apply nok_orelse; [apply nok_ts | apply nok_cerr]].
+      + destruct (orelse (cerr cf C_EXTEND 1) (orelse (ts_fail fl 0 repl start (e - start)) (cerr cf C_ACK 1))) as [er|] eqn:E2.
+        * exfalso. eapply (Hno _ _ _ _ er E2 Hc). Unshelve.
+          apply nok_orelse; [apply nok_cerr | apply nok_orelse; [apply nok_ts | apply nok_cerr]].
+        * apply (Hw s); auto.
+    - destruct (orelse (cerr cf C_EXTEND 0) (orelse (ts_fail fl 0 repl (ntr st) (e - ntr st)) (cerr cf C_ACK 0))) as [er|] eqn:E1.
+      + exfalso.
+        assert (Hn : nok (orelse (cerr cf C_EXTEND 0) (orelse (ts_fail fl 0 repl (ntr st) (e - ntr st)) (cerr cf C_ACK 0)))).
+        { apply nok_orelse; [apply nok_cerr | apply nok_orelse; [apply nok_ts | apply nok_cerr]]. }
+        destruct (start <? ntr st).
+        * destruct (write_at tl s off (rtake (ntr st * tl - o) b)) as [[wp x] s']. exact (Hno _ _ _ Hn er E1 Hc).
+        * exact (Hno _ _ _ Hn er E1 Hc).
+      + apply (Hw s); auto. }
+  clearbody create_part.
+  destruct (orelse (cerr cf C_LOOKUP 0) (cerr cf C_STAT 0)) as [er|] eqn:E0.
+  { exfalso. refine (Hno _ _ _ _ er E0 H). apply nok_orelse; apply nok_cerr. }
+  destruct (start <? ntr st) eqn:Hs; [|apply (Hcreate st); auto].
+  destruct (get_tracts st start (N.min e (ntr st))) as [r1 stg] eqn:Hg.
+  assert (Hlt : start < N.min e (ntr st)).
+  { apply N.ltb_lt in Hs. destruct (tract_of tl o Htl) as (S1 & S2 & _). fold start in S1, S2.
+    destruct (ceil_tract tl (o + rlen b) Htl ltac:(lia)) as (E1 & E2 & E3).
+    replace ((o + rlen b + tl - 1) / tl) with e in * by (unfold e; f_equal; lia).
+    assert (start < e); [|lia].
+    destruct (N.lt_ge_cases start e) as [|Hge]; auto.
+    assert (e * tl <= start * tl) by (apply N.mul_le_mono_r; lia). lia. }
+  pose proof (get_tracts_R tl st f _ _ r1 stg HR Hlt Hg) as HRg.
+  destruct (if rpcs stg =? rpcs st then None else cerr cf C_GET 0) as [er|] eqn:E1.
+  { exfalso. refine (Hno _ _ _ _ er E1 H). destruct (rpcs stg =? rpcs st); [apply nok_none | apply nok_cerr]. }
+  destruct (ts_fail fl 0 repl start (N.min e (ntr st) - start)) as [er|] eqn:E2; [|apply (Hcreate st); auto].
+  destruct (rpcs stg =? rpcs st).
+  - destruct (cerr cf C_GET 0) as [e2|] eqn:E3.
+    { exfalso. exact (Hno _ _ _ (nok_cerr cf C_GET 0) e2 E3 H). }
+    destruct (ts_fail fl 1 repl start (N.min e (ntr st) - start)) as [e2|] eqn:E4.
+    + destruct (get_tracts (drop_cache stg) start (N.min e (ntr st))) as [r2 st2].
+      exfalso. exact (Hno _ _ _ (nok_ts fl 1 repl _ _) e2 E4 H).
+    + apply (Hcreate (drop_cache stg)); auto. apply R_drop_cache; auto.
+  - exfalso. exact (Hno _ _ _ (nok_ts fl 0 repl _ _) er E2 H).
 Qed.
